@@ -1024,3 +1024,230 @@ func ruleBuildKeepsTree(r *Run) {
 		o.OK("%d function(s) of the metric package, no expression node constructed", nFn).At(r.pos(bf.Pos()))
 	}
 }
+
+// ---- rules added after seed round p/q ----
+
+// ruleLexerInputVerbatim (PV-ROLE): the scanner reads the query text itself: Tokenize hands its
+// string parameter, unmodified, to strings.NewReader for the scanner (comments are skipped by the
+// scanner loop, which knows when it is inside a string literal; a textual pre-pass does not).
+func ruleLexerInputVerbatim(r *Run) {
+	p := r.P
+	o := r.Ob("PV-ROLE", "lexer.Tokenize input", "the scanner is initialised with the query text as given (strings.NewReader of Tokenize's own parameter): no pre-processing of the text before tokens and string literals are recognised")
+	tk := p.Func(lexerPkg, "Tokenize")
+	if tk == nil || len(tk.Params) == 0 {
+		o.Fail("-", "Tokenize not found")
+		return
+	}
+	grp := funcGroup(tk)
+	n, good := 0, true
+	for _, g := range grp {
+		for _, c := range callsIn(g) {
+			if pk, nm := calleePkgName(c); pk != "text/scanner" || nm != "Init" {
+				continue
+			}
+			n++
+			args := c.Common().Args
+			src := args[len(args)-1]
+			if mi, ok := src.(*ssa.MakeInterface); ok {
+				src = mi.X
+			}
+			rc, ok := src.(*ssa.Call)
+			if !ok || func() bool { pk, nm := calleePkgName(rc); return pk != "strings" || nm != "NewReader" }() {
+				good = false
+				o.Fail(r.pos(c.Pos()), "the scanner reads from %s, not from strings.NewReader(query)", describe(src, 0))
+				continue
+			}
+			text := rc.Call.Args[0]
+			if originValueIn(unspill(text), grp) != ssa.Value(tk.Params[0]) && unspill(text) != ssa.Value(tk.Params[0]) {
+				good = false
+				o.Fail(r.pos(rc.Pos()), "the scanner is given %s, not the query text Tokenize received", describe(text, 0))
+			}
+		}
+	}
+	if n == 0 {
+		o.Fail(r.pos(tk.Pos()), "no scanner.Init call found in Tokenize and its helpers")
+		return
+	}
+	if good {
+		o.OK("scanner.Init(strings.NewReader(s)) with s the parameter").At(r.pos(tk.Pos()))
+	}
+}
+
+// ruleParserStateOnlyPosition (PV-FRESH): what a parse function returns is built for that call:
+// while parsing, the parser's own state is only its position; no parse method stores a slice, map
+// or pointer into the parser (a buffer kept there and handed out is shared by every clause of the
+// query that used it).
+func ruleParserStateOnlyPosition(r *Run) {
+	p := r.P
+	o := r.Ob("PV-FRESH", "logql.parser state", "parse methods write no field of the parser except its token position: nothing a parse function returns can alias storage that a later parse call reuses")
+	parserT := p.NamedType(logqlPkg, "parser")
+	if parserT == nil {
+		o.Fail("-", "type parser not found")
+		return
+	}
+	n, nStores, good := 0, 0, true
+	for _, fn := range p.SrcFuncs() {
+		if pkgPathOf(fn) != modPath+"/"+logqlPkg {
+			continue
+		}
+		isM := false
+		for g := fn; g != nil; g = g.Parent() {
+			if g.Signature.Recv() != nil && types.Identical(derefType(g.Signature.Recv().Type()), parserT) {
+				isM = true
+			}
+		}
+		if !isM {
+			continue
+		}
+		n++
+		allInstrs(fn, func(in ssa.Instruction) {
+			st, ok := in.(*ssa.Store)
+			if !ok {
+				return
+			}
+			f, base, ok := fieldNameOf(st.Addr)
+			if !ok || !types.Identical(derefType(base.Type()), parserT) {
+				return
+			}
+			nStores++
+			if bt, ok := st.Val.Type().Underlying().(*types.Basic); ok && bt.Info()&types.IsInteger != 0 {
+				return
+			}
+			good = false
+			o.Fail(r.pos(st.Pos()), "%s stores %s into parser.%s: state kept between parse calls", shortFuncName(fn), describe(st.Val, 0), f)
+		})
+	}
+	if n < 20 {
+		o.Fail("-", "only %d parser methods found", n)
+		return
+	}
+	if good {
+		o.OK("%d parser methods/closures, %d store(s) to parser fields, all of the integer position", n, nStores)
+	}
+}
+
+// ruleLiteralBinOpWritesBack (PV-RESET): the samples a vector-scalar operation accepts are what
+// the step reports: each accepted result is written into r.Samples, and r.Samples is set to
+// exactly the accepted ones before the step is returned.
+func ruleLiteralBinOpWritesBack(r *Run) {
+	p := r.P
+	o := r.Ob("PV-RESET", "logqlmetric.(*literalBinOpIterator).Next samples", "every result the operation accepts is stored into the step's samples and the step's sample list is set to the accepted ones on the path that returns true")
+	fn := p.Method(metricPkg, "literalBinOpIterator", "Next")
+	if fn == nil || len(fn.Params) != 2 {
+		o.Fail("-", "method not found")
+		return
+	}
+	step := fn.Params[1]
+	isStepSamples := func(addr ssa.Value) bool {
+		f, base, ok := fieldNameOf(addr)
+		return ok && f == "Samples" && (base == ssa.Value(step) || originValue(base) == ssa.Value(step))
+	}
+	var opCall *ssa.Call
+	for _, c := range callsIn(fn) {
+		call, ok := c.(*ssa.Call)
+		if !ok || call.Call.IsInvoke() || staticCallee(call) != nil {
+			continue
+		}
+		if f, _, ok := loadOfField(call.Call.Value); ok && f == "op" {
+			opCall = call
+		}
+	}
+	if opCall == nil {
+		o.Undecide(r.pos(fn.Pos()), "the call of the sample operation (i.op) was not found")
+		return
+	}
+	var val ssa.Value
+	for _, ref := range *opCall.Referrers() {
+		if e, ok := ref.(*ssa.Extract); ok && e.Index == 0 {
+			val = e
+		}
+	}
+	if val == nil {
+		o.Fail(r.pos(opCall.Pos()), "the result of the operation is not used")
+		return
+	}
+	// how the accepted value reaches the step
+	byIndex, byAppend := false, (*ssa.Call)(nil)
+	var walkUse func(v ssa.Value, d int)
+	walkUse = func(v ssa.Value, d int) {
+		if d > 4 || v.Referrers() == nil {
+			return
+		}
+		for _, ref := range *v.Referrers() {
+			switch x := ref.(type) {
+			case *ssa.Store:
+				if x.Val != v {
+					continue
+				}
+				if ia, ok := x.Addr.(*ssa.IndexAddr); ok {
+					if lu, ok := ia.X.(*ssa.UnOp); ok && isStepSamples(lu.X) {
+						byIndex = true
+					}
+					// the one-element array of a variadic append
+					if al, ok := ia.X.(*ssa.Alloc); ok {
+						for _, r2 := range *al.Referrers() {
+							if sl, ok := r2.(*ssa.Slice); ok {
+								for _, r3 := range *sl.Referrers() {
+									if c, ok := r3.(*ssa.Call); ok && isAppend(c) {
+										byAppend = c
+									}
+								}
+							}
+						}
+					}
+				}
+				if al, ok := x.Addr.(*ssa.Alloc); ok {
+					for _, r2 := range *al.Referrers() {
+						if u, ok := r2.(*ssa.UnOp); ok && u.Op == token.MUL {
+							walkUse(u, d+1)
+						}
+					}
+				}
+			}
+		}
+	}
+	walkUse(val, 0)
+	// stores to r.Samples
+	var sampleStores []*ssa.Store
+	allInstrs(fn, func(in ssa.Instruction) {
+		if st, ok := in.(*ssa.Store); ok && isStepSamples(st.Addr) {
+			sampleStores = append(sampleStores, st)
+		}
+	})
+	good := true
+	switch {
+	case byIndex:
+		// truncation after the loop: r.Samples = r.Samples[:n]
+		okTrunc := false
+		for _, st := range sampleStores {
+			if sl, ok := st.Val.(*ssa.Slice); ok {
+				if lu, ok := sl.X.(*ssa.UnOp); ok && isStepSamples(lu.X) && sl.High != nil && !blockReaches(st.Block(), opCall.Block()) {
+					okTrunc = true
+				}
+			}
+		}
+		if !okTrunc {
+			good = false
+			o.Fail(r.pos(opCall.Pos()), "accepted results are stored by index but the step's sample list is not cut to their number after the loop: dropped samples stay in the step")
+		}
+	case byAppend != nil:
+		okStore := false
+		for _, st := range sampleStores {
+			for _, lv := range phiLeaves(st.Val) {
+				if lv == ssa.Value(byAppend) && !blockReaches(st.Block(), opCall.Block()) {
+					okStore = true
+				}
+			}
+		}
+		if !okStore {
+			good = false
+			o.Fail(r.pos(byAppend.Pos()), "accepted results are appended to a slice that is never stored into the step's samples after the loop: the step keeps its unfiltered samples")
+		}
+	default:
+		good = false
+		o.Fail(r.pos(opCall.Pos()), "an accepted result is neither stored into r.Samples by index nor appended to the list stored there")
+	}
+	if good {
+		o.OK("accepted results are written into r.Samples and the list is set to the accepted ones").At(r.pos(fn.Pos()))
+	}
+}
